@@ -1052,7 +1052,16 @@ pub fn generate(s: &mut Session, thorough: bool) -> bool {
     let mut vertex_fits = 0usize;
     for _ in 0..1500 * scale {
         let with_nan = rng.below(8) == 0;
-        let specs = track_set(&mut rng, with_nan);
+        let mut specs = track_set(&mut rng, with_nan);
+        // one track set in four: some tracks with their range given the other way round (t_inner >
+        // t_outer): the arc length is |t2 - t1|-based and must not depend on the direction
+        if rng.below(4) == 0 {
+            for t in specs.iter_mut() {
+                if rng.bool() {
+                    t.swap(6, 7);
+                }
+            }
+        }
         let (imp, why) = run_vertexinit(&specs);
         if imp.starts_with("ok ") && imp != "ok none" {
             vertex_fits += 1;
